@@ -829,6 +829,13 @@ impl HistoryEngine {
     }
 }
 
+impl HistoryEngine {
+    /// one history step for other engines (C08's objective differential)
+    pub fn step_public(&self, cx: &Ctx, cur: &Schedule, r: &[u32], fs: &mut Vec<Finding>) -> (StepReport, Option<Schedule>) {
+        self.step(cx, cur, r, fs)
+    }
+}
+
 pub fn validate_after(cx: &Ctx, s: &Schedule, label: &str, fs: &mut Vec<Finding>) {
     match sut::catch(|| osched::validate(cx, s, &osched::Opts { c09: true, c10: true })) {
         Ok(list) => {
